@@ -402,6 +402,57 @@ def atom_holds(atoms, rel, pa, pb):
     return None
 
 
+def variant_facts(fn, bb, prog=None):
+    """enum facts that hold at block bb, however they were tested: list of (adt path, variant name, holds) from
+    discriminant switches (`match`, `if let`, `matches!`) and from `==`/`!=` against a constant variant"""
+    out = []
+    gs = dominating_guards(fn, bb)
+    for at in norm_guards(gs):
+        a, b = at["a"].strip(), at["b"].strip()
+        for x, y in ((a, b), (b, a)):
+            if y.k == "agg" and "::" in str(y.a) and not y.kids and at["rel"] in ("eq", "ne"):
+                adt, var = str(y.a).rsplit("::", 1)
+                out.append((adt, var, at["rel"] == "eq", x, at["gd"]))
+        gd = at["gd"]
+        if a.k == "discr" and b.k == "const" and gd["bool"] is None:
+            ty = discr_type_of_switch(fn, gd["bb"])
+            names = {}
+            if prog is not None and ty in prog.adts:
+                names = {v["idx"]: v["name"] for v in prog.adts[ty]["variants"]}
+            if ty:
+                out.append((ty, names.get(b.a["v"], b.a["v"]), at["rel"] == "eq", a.kids[0] if a.kids else a, gd))
+    return out
+
+
+def resolve_upvars(prog, cf, o):
+    """replace reads of a closure's captured variables (`(*_1).N`) in the origin tree `o` by the origin of the captured
+    operand at the place where the parent function builds the closure"""
+    parent = prog.fns.get(cf.closure_of) if cf.closure_of else None
+    if parent is None:
+        return o
+    caps = None
+    for b in parent.reachable():
+        for s in parent.blocks[b].stmts:
+            if s.rv is not None and s.rv.k == "agg" and s.rv.j.get("ak") in ("closure", "coroutine") and s.rv.j.get("def") == cf.path:
+                caps = [origin_of_operand(parent, op) for op in s.rv.ops]
+    if caps is None:
+        return o
+
+    def rec(x):
+        if x.k == "field" and x.kids:
+            base = x.kids[0]
+            bs = base.strip()
+            if bs.k == "arg" and bs.a.get("idx") == 1:
+                try:
+                    i = int(x.a)
+                except (TypeError, ValueError):
+                    i = None
+                if i is not None and i < len(caps):
+                    return expand_single_def_vars(parent, caps[i])
+        return Origin(x.k, x.a, [rec(k) if isinstance(k, Origin) else k for k in x.kids], x.bb)
+    return rec(o)
+
+
 def guards_fmt(gs):
     return "; ".join("%s∈%s" % (g["pred"].fmt(), g["labels"]) if g["bool"] is None else "%s==%s" % (g["pred"].fmt(), g["bool"]) for g in gs)
 
@@ -724,6 +775,11 @@ def event_graph(fn, role_of, ret_local=0, max_states=40000, branch_role=None, st
                     for kl, kv in kb:
                         if kl == s.rv.ops[0].place.local and isinstance(kv, tuple):
                             kb = kb | {(ll, kv)}
+                # the literal an unnamed temporary holds (so that `tmp = Err(X); _0 = move tmp` returns Err(X))
+                if s.rv.k == "agg" and s.rv.j.get("ak") == "adt" and fn.local_name(ll) is None and ll != ret_local and ll not in mut_borrowed(fn):
+                    av = abstract_value(fn, s, aliases, src, ev_blocks)
+                    if av.startswith("agg:"):
+                        kb = kb | {(ll, ("abs", av))}
             if decided and s.lhs is not None and not (s.rv.k == "discr"):
                 decided = frozenset(x for x in decided if x[0][1] != s.lhs.local)
             if s.lhs.is_local():
@@ -741,6 +797,10 @@ def event_graph(fn, role_of, ret_local=0, max_states=40000, branch_role=None, st
                         is_alias = True
                 if l == ret_local:
                     retv = abstract_value(fn, s, aliases, src, ev_blocks)
+                    if retv.startswith("var:") and src_local is not None:
+                        for kl, kv in kb:
+                            if kl == src_local and isinstance(kv, tuple) and kv[0] == "abs":
+                                retv = kv[1]
                 if is_alias or is_discr:
                     aliases.add(l)
                 elif l in aliases:
@@ -1026,6 +1086,42 @@ def defs_origins(fn, local, depth=10):
             continue
         out.append((d[0], _origin_of_def(fn, d, depth, {local})))
     return out
+
+
+def move_chain(fn, local, hops=8):
+    """locals a value passes through: `local` and, while it has a single definition that is a plain move/copy (or a
+    widening cast) of another local, that local, and so on"""
+    out = [local]
+    while hops > 0:
+        hops -= 1
+        defs = [d for d in local_defs(fn).get(local, []) if d[1] != "partial"]
+        if len(defs) == 1 and defs[0][1] == "assign":
+            rv = defs[0][2].rv
+            if rv is not None and rv.k in ("use", "copy_for_deref", "cast") and rv.ops and rv.ops[0].place is not None and rv.ops[0].place.is_local():
+                local = rv.ops[0].place.local
+                if local in out:
+                    break
+                out.append(local)
+                continue
+        break
+    return out
+
+
+def alternatives(fn, local, hops=8, depth=10):
+    """the definitions (block, origin) that can reach `local`, looking through plain moves/copies of single-definition
+    locals: `let v = if c {A} else {B}; f(v)` and `f(if c {A} else {B})` give the same two alternatives"""
+    seen = set()
+    while hops > 0 and local not in seen:
+        seen.add(local)
+        hops -= 1
+        defs = [d for d in local_defs(fn).get(local, []) if d[1] != "partial"]
+        if len(defs) == 1 and defs[0][1] == "assign":
+            rv = defs[0][2].rv
+            if rv is not None and rv.k in ("use", "copy_for_deref") and rv.ops and rv.ops[0].place is not None and rv.ops[0].place.is_local():
+                local = rv.ops[0].place.local
+                continue
+        break
+    return defs_origins(fn, local, depth)
 
 
 def expand_single_def_vars(fn, o, depth=3):
